@@ -45,8 +45,14 @@ def check_dino(spec):
     # a list of views as the only item would be ambiguous for the static mode helpers (a bare list looks like an item tuple),
     # so multi-view batches use the two-item mode "index x" (as the library's own tests do)
     mode = "index x" if spec["as_list"] else "x"
-    coll = KDDinoMaskCollator(mask_ratio=(a, b), mask_prob=spec["prob"], mask_size=(h, w), num_views=V,
-                              min_num_patches=spec["min_patches"], min_aspect=spec["min_aspect"], dataset_mode=mode, return_ctx=True)
+    if spec.get("reassign_ratio"):
+        # the collator is re-configured after construction (a ratio schedule): the ratios that are set when a batch arrives count
+        coll = KDDinoMaskCollator(mask_ratio=(min(1.0, b + 0.3), 1.0), mask_prob=spec["prob"], mask_size=(h, w), num_views=V,
+                                  min_num_patches=spec["min_patches"], min_aspect=spec["min_aspect"], dataset_mode=mode, return_ctx=True)
+        coll.mask_ratio = (a, b)
+    else:
+        coll = KDDinoMaskCollator(mask_ratio=(a, b), mask_prob=spec["prob"], mask_size=(h, w), num_views=V,
+                                  min_num_patches=spec["min_patches"], min_aspect=spec["min_aspect"], dataset_mode=mode, return_ctx=True)
     coll.set_rng(np.random.default_rng(spec["seed"]))
     samples = _samples(B, V, spec["as_list"], list_len=V + spec.get("extra_crops", 0))
     if spec["as_list"]:
@@ -156,6 +162,15 @@ def check_ijepa(spec):
         c.set_rng(np.random.default_rng(seed))
         return c
     c1, c2 = make(spec["seed"]), make(spec["seed"] + 7919)
+    if spec.get("via") in ("wrapper", "compose"):
+        # the first collator works as a member of a container that carries mode and return_ctx (the member's own stay at their defaults)
+        from kappadata.collators import KDComposeCollator, KDSingleCollatorWrapper
+        member = KDIjepaMaskCollator(input_size=(H * ph, W * pw), patch_size=ps if isinstance(ps, int) else tuple(ps), encoder_mask_scale=tuple(spec["enc_scale"]),
+                                     predictor_mask_scale=tuple(spec["pred_scale"]), predictor_aspect_ratio=tuple(spec["pred_ar"]),
+                                     num_enc_masks=spec["n_enc"], num_pred_masks=spec["n_pred"], min_keep=spec["min_keep"], tries=spec["tries"])
+        member.set_rng(np.random.default_rng(spec["seed"]))
+        c1 = (KDSingleCollatorWrapper(member, dataset_mode="x", return_ctx=True) if spec["via"] == "wrapper"
+              else KDComposeCollator([member], dataset_mode="x", return_ctx=True))
     # a user subclass that overrides the public step() hook (e.g. to follow the trainer's update counter): block sizes follow the step
     # that hook reports - here the same numbers the plain collators count, although this object is called twice as often
     c3 = make(spec["seed"] + 104729)
@@ -177,6 +192,8 @@ def check_ijepa(spec):
                 raise Refused("collator did not return within 5 s (relaxation cannot reach min_keep)")
             if not torch.equal(batch, exp):
                 raise Violation("ijepa:batch-changed", "")
+            if "predictor_masks" not in ctx or "encoder_masks" not in ctx:
+                raise Violation("ijepa:masks-missing-from-context", f"context keys {sorted(ctx)} (collator used {spec.get('via') or 'directly'})")
             pm, em = ctx["predictor_masks"], ctx["encoder_masks"]
             if pm.ndim != 2 or pm.shape[0] != spec["n_pred"] * B:
                 raise Violation("ijepa:predictor-mask-shape", str(tuple(pm.shape)))
@@ -236,14 +253,15 @@ RATIO = st.tuples(st.sampled_from([0.0, 0.1, 0.3, 0.5]), st.sampled_from([0.0, 0
 DINO = st.fixed_dictionaries({"B": st.integers(1, 8), "V": st.integers(1, 3), "as_list": st.booleans(), "h": st.integers(2, 16),
                               "w": st.integers(2, 16), "ratio": RATIO, "prob": st.sampled_from([0.0, 0.25, 0.5, 0.3, 0.75, 1.0]),
                               "min_patches": st.sampled_from([1, 4, 8]), "min_aspect": st.sampled_from([0.3, 0.1, 1.0]),
-                              "seed": st.integers(0, 2 ** 32 - 1), "extra_crops": st.sampled_from([0, 0, 1, 4]), "B2": st.integers(1, 8)})
+                              "seed": st.integers(0, 2 ** 32 - 1), "extra_crops": st.sampled_from([0, 0, 1, 4]), "B2": st.integers(1, 8),
+                              "reassign_ratio": st.booleans()})
 IJEPA = st.fixed_dictionaries({"gh": st.integers(3, 16), "gw": st.integers(3, 16), "patch": st.sampled_from([1, 4, 16, [8, 4], [4, 8], [2, 3]]),
                                "enc_scale": st.sampled_from([[0.85, 1.0], [0.5, 0.7], [0.3, 0.3], [0.6, 1.0]]),
                                "pred_scale": st.sampled_from([[0.15, 0.2], [0.05, 0.1], [0.1, 0.3], [0.02, 0.02]]),
                                "pred_ar": st.sampled_from([[0.75, 1.5], [1.0, 1.0], [0.5, 2.0]]),
                                "n_enc": st.integers(1, 2), "n_pred": st.integers(1, 4), "min_keep": st.sampled_from([0, 1, 2, 4, 10]),
                                "tries": st.sampled_from([1, 5, 20]), "B": st.integers(1, 6), "seed": st.integers(0, 2 ** 31),
-                               "steps": st.integers(1, 4)})
+                               "steps": st.integers(1, 4), "via": st.sampled_from([None, None, "wrapper", "compose"])})
 
 class _SampleDS(torch.utils.data.Dataset):
     def __init__(self, n):
